@@ -1409,8 +1409,9 @@ def evaluate__parse_xml(self: XPathFunction, context: ta.ContextType = None) \
             root = etree.XML(defuse_xml(arg.encode('utf-8')))
         else:
             root = etree.XML(arg.encode('utf-8'))
-    except etree.ParseError:
-        raise self.error('FODC0006')
+    except (etree.ParseError, ValueError, LookupError):
+        # not well-formed, not encodable (lone surrogates) or with an unsupported encoding
+        raise self.error('FODC0006') from None
     else:
         return cast(DocumentNode, get_node_tree(etree.ElementTree(root), self.parser.namespaces))
 
@@ -1462,6 +1463,9 @@ def evaluate__parse_xml_fragment(self: XPathFunction, context: ta.ContextType = 
         else:
             assert isinstance(dummy_element_node, ElementNode)
             return dummy_element_node.get_document_node(replace=True)
+    except (ValueError, LookupError) as err:
+        # not encodable (lone surrogates) or with an unsupported encoding
+        raise self.error('FODC0006', str(err)) from None
     else:
         return cast(DocumentNode, get_node_tree(
             root=etree.ElementTree(root),
